@@ -177,12 +177,18 @@ func (nopRecorder) RecordLost(string)                              {}
 func (nopRecorder) Drop(string)                                    {}
 
 // Add constructs a LocalNode (Inactive) with the given id.
-func (n *Net) Add(id uint64) *Member {
+func (n *Net) Add(id uint64) *Member { return n.AddWithKV(id, nil) }
+
+// AddWithKV is Add with a given storage provider: a node that restarts with
+// its old identity keeps its old store (reuse != nil).
+func (n *Net) AddWithKV(id uint64, reuse chord.KVProvider) *Member {
 	var (
 		kv   chord.KVProvider
 		done func()
 	)
-	if n.cfg.NewKV != nil {
+	if reuse != nil {
+		kv = reuse
+	} else if n.cfg.NewKV != nil {
 		kv, done = n.cfg.NewKV(id)
 	} else {
 		kv = memory.WithHashFn(chord.Hash)
